@@ -93,10 +93,10 @@ section witnesses
 /-- `a ∈ {x,y,w}`, ordinal `m ∈ (1,2,4)`, `b ∈ 1..10` active iff `a == "x"`, real
 `c ∈ [3e-5, 7000]` log-uniform; forbidden `b == 1 ∧ m == 2`; tree surrogate transformers -/
 def d1 : Decl :=
-  { hps := [⟨"a", .cat [.str "x", .str "y", .str "w"], .label, none⟩,
-            ⟨"m", .cat [.int 1, .int 2, .int 4], .identity, none⟩,
-            ⟨"b", .int 1 10 .uniform, .identity, some (.cmp 0 .eq (.str "x"))⟩,
-            ⟨"c", .real (3 / 100000) 7000 .logUniform, .identity, none⟩],
+  { hps := [{ name := "a", dim := .cat [.str "x", .str "y", .str "w"], tr := .label, cond := none },
+            { name := "m", dim := .cat [.int 1, .int 2, .int 4], tr := .identity, cond := none },
+            { name := "b", dim := .int 1 10 .uniform, tr := .identity, cond := some (.cmp 0 .eq (.str "x")) },
+            { name := "c", dim := .real (3 / 100000) 7000 .logUniform, tr := .identity, cond := none }],
     forbs := [.and (.eq 2 (.int 1)) (.eq 1 (.int 2))] }
 
 /-- numerics standing in for log10 / 10** / rounding (the theorems hold for any) -/
